@@ -49,7 +49,9 @@ Mls == {<<It("pres", "description", {"d3"})>>, <<It("rem", "description", {"d1"}
         <<It("purge", "class", {})>>, <<It("pres", "class", {"group"})>>, <<It("rem", "class", {"group"})>>,
         <<It("pres", "class", {"system"})>>, <<It("pres", "class", {"recycled"})>>, <<It("rem", "class", {"recycled"})>>,
         <<It("rem", "class", {"sync_object"})>>, <<It("pres", "member", {"u8"})>>, <<It("purge", "member", {})>>,
-        <<It("pres", "class", {"group"}), It("pres", "description", {"d3"})>>, <<>>}
+        <<It("pres", "class", {"group"}), It("pres", "description", {"d3"})>>, <<>>,
+        <<It("set", "description", {"d3"})>>, <<It("set", "member", {"u8"})>>,
+        <<It("set", "class", {"object", "group"})>>, <<It("set", "class", {"object", "system"})>>}
 Yields == {[x \in {} |-> {}], [x \in {"s1"} |-> {"description"}]}
 Ops == {"modify", "revive", "delete", "create"}
 
@@ -73,7 +75,7 @@ One(x) == [y \in {e.id} |-> x]
 
 Inv ==
   CASE op \in {"modify", "revive"} ->
-         L2ModifyAllowed(S, Y, id, ml, e) => L1Modify(S, id, op, ml, One(e), One(PostE))
+         L2ModifyAllowed(S, Y, id, ml, e) => L1Modify(S, id, op, ml, {e.id}, One(e), One(PostE))
     [] op = "delete" ->
          L2DeleteAllowed(S, id, e) => L1Delete(S, id, One(e), One([e EXCEPT !.live = "recycled", !.attrs = [e.attrs EXCEPT !["class"] = @ \cup {"recycled"}]]))
     [] op = "create" ->
@@ -84,7 +86,7 @@ Inv ==
 InvSync == (op = "modify" /\ "sync_object" \in Classes(e) /\ id.origin = "user" /\ L2ModifyAllowed(S, Y, id, ml, e)) =>
              NamedAttrs(ml) \subseteq SyncBase \cup UNION {IF y \in DOMAIN Y THEN Y[y] ELSE {} : y \in AttrVals(e, "sync_parent_uuid")}
 
-ASSUME \A i \in 1..8 : TLCSet(i, 0)
+ASSUME \A i \in 1..10 : TLCSet(i, 0)
 Arm(i, name, cond) == (TLCGet(i) = 0 /\ cond) => (TLCSet(i, 1) /\ PrintT(<<"ARM", name>>))
 Arms ==
   /\ Arm(1, "modify-allowed", op = "modify" /\ L2ModifyAllowed(S, Y, id, ml, e))
@@ -95,4 +97,8 @@ Arms ==
   /\ Arm(6, "sync-entry-yielded-allowed", op = "modify" /\ "sync_object" \in Classes(e) /\ L2ModifyAllowed(S, Y, id, ml, e))
   /\ Arm(7, "class-added", op = "modify" /\ L2ModifyAllowed(S, Y, id, ml, e) /\ AddedVals(e, PostE, "class") # {})
   /\ Arm(8, "entry-manager-allowed", id.u = "u3" /\ op = "modify" /\ L2ModifyAllowed(S, Y, id, ml, e))
+  /\ Arm(9, "set-allowed", op = "modify" /\ SetItems(ml) # {} /\ L2ModifyAllowed(S, Y, id, ml, e))
+  /\ Arm(10, "set-refused-for-missing-removed-grant", op = "modify" /\ ml = <<It("set", "description", {"d3"})>> /\ CanWrite(id)
+             /\ ~L2ModifyAllowed(S, Y, id, ml, e) /\ "description" \in ModGrant(S, id, e).pres /\ "description" \notin ModGrant(S, id, e).rem
+             /\ ~e.sys /\ Classes(e) \cap ProtectedPres = {})
 =============================================================================
